@@ -201,6 +201,9 @@ func (d *Descriptor) readAsSlice(out Outputter, data []byte) (n int, err error) 
 			if err != nil {
 				return 0, err
 			}
+			if n <= 0 {
+				return 0, fmt.Errorf("corrupt data reading slice element at offset %d", offset)
+			}
 			offset += n
 		}
 		return offset, nil
@@ -223,8 +226,7 @@ func (d *Descriptor) readAsSlice(out Outputter, data []byte) (n int, err error) 
 			if s == 0 {
 				continue
 			}
-			end := offset + int(s)
-			if end > len(data) {
+			if s > uint64(len(data)-offset) {
 				return 0, fmt.Errorf("corrupt data reading slice entry %d", i)
 			}
 
@@ -254,6 +256,9 @@ func (d *Descriptor) readAsMapEntry(out Outputter, data []byte) (n int, err erro
 	var offset int
 	for offset < l {
 		wt, index, n := plenccore.ReadTag(data[offset:])
+		if n <= 0 {
+			return 0, fmt.Errorf("invalid tag at offset %d of %s", offset, d.Name)
+		}
 		offset += n
 
 		var elt *Descriptor
@@ -284,10 +289,10 @@ func (d *Descriptor) readAsMapEntry(out Outputter, data []byte) (n int, err erro
 				return 0, fmt.Errorf("varuint overflow reading field %d of %s", index, d.Name)
 			}
 			offset += n
-			fl = int(v) + offset
-			if fl > l {
-				return 0, fmt.Errorf("length %d of field %d of %s exceeds data length", fl, index, d.Name)
+			if v > uint64(l-offset) {
+				return 0, fmt.Errorf("length %d of field %d of %s exceeds data length", v, index, d.Name)
 			}
+			fl = int(v) + offset
 		}
 
 		n, err := elt.read(out, data[offset:fl])
@@ -306,6 +311,9 @@ func (d *Descriptor) readAsStruct(out Outputter, data []byte) (n int, err error)
 	var offset int
 	for offset < l {
 		wt, index, n := plenccore.ReadTag(data[offset:])
+		if n <= 0 {
+			return 0, fmt.Errorf("invalid tag at offset %d of %s", offset, d.Name)
+		}
 		offset += n
 
 		var elt *Descriptor
@@ -336,10 +344,10 @@ func (d *Descriptor) readAsStruct(out Outputter, data []byte) (n int, err error)
 				return 0, fmt.Errorf("varuint overflow reading field %d of %s", index, d.Name)
 			}
 			offset += n
-			fl = int(v) + offset
-			if fl > l {
-				return 0, fmt.Errorf("length %d of field %d of %s exceeds data length", fl, index, d.Name)
+			if v > uint64(l-offset) {
+				return 0, fmt.Errorf("length %d of field %d of %s exceeds data length", v, index, d.Name)
 			}
+			fl = int(v) + offset
 		}
 
 		out.NameField(elt.Name)
